@@ -2,6 +2,7 @@ package tasks
 
 import (
 	"fmt"
+	"strings"
 
 	"github.com/crillab/gophersat/solver"
 
@@ -12,6 +13,19 @@ import (
 // toClause renders an appended constraint (normalised >= form, positive
 // coefficients) through the public Clause constructors.
 func toClause(c ref.Con, form string) *solver.Clause {
+	if f, ok := strings.CutSuffix(form, "+constr"); ok {
+		// the other public way to a *Clause: a PBConstr from the constraint constructors, converted
+		ints := append([]int(nil), c.Lits...)
+		switch f {
+		case "clause":
+			return solver.PropClause(ints...).Clause()
+		case "card":
+			return solver.AtLeast(ints, c.K).Clause()
+		case "pb":
+			return solver.GtEq(ints, cp(c.Coefs), c.K).Clause()
+		}
+		panic("bad form " + form)
+	}
 	lits := toLits(c.Lits)
 	switch form {
 	case "clause":
